@@ -7,7 +7,7 @@ META = {
                  "taint analysis of graph-breaking operations on the forward path, structural contract check of "
                  "the custom autograd Function; polynomial normal form of the derivative operators' coefficients; interprocedural mutates-parameter summaries restricted to tensor storage (in-place rule)",
     "design_ref": "DESIGN.md §5 C30, A.8",
-    "explanation": "WGDIV: on the functions reachable from PCHIP1D (6 functions, 3 where() sites) no branch of a "
+    "explanation": "GRADPATH-observable: the generator handed to the energy observables must not be an object created inside autograd.Function.forward (no graph is recorded there) - today it is (known finding K3). WGDIV: on the functions reachable from PCHIP1D (6 functions, 3 where() sites) no branch of a "
                    "torch.where divides by a value that is computed from the same data as the mask unless that "
                    "divisor went through a sanitising where/clamp first (forward is masked, backward would be "
                    "0·inf = nan); divisions by the knot spacings h are safe only while _validate_xy rejects "
@@ -36,3 +36,4 @@ def check(ctx):
     kernels.pchip_evaluation(ctx)
     kernels.pchip_end_slopes(ctx)
     grad.backward_covers_every_qubit(ctx)
+    grad.observable_generator_on_graph(ctx)
